@@ -108,7 +108,12 @@ class GenericModelCodeGenerator:
         resolved_types_style[StringLiteral][StringLiteral.TypeStyle.max_literals] = int(max_literals)
         self.types_style = resolved_types_style
 
-        self.model.set_raw_name(self.convert_class_name(self.model.name), generated=self.model.is_name_generated)
+        class_name = self.convert_class_name(self.model.name)
+        if self.model.is_name_generated:
+            # A name generated from a key that starts with a non-letter ("$ref", "1st") is not capitalised by camelize
+            # and would equal the snake_case name of the field that refers to the class
+            class_name = class_name[:1].upper() + class_name[1:]
+        self.model.set_raw_name(class_name, generated=self.model.is_name_generated)
 
     @cached_method
     def convert_class_name(self, name):
